@@ -219,6 +219,7 @@ def check_case(ctx, case):
             scales[i], scales[i + 1])[0] == "ok"
             for i in range(len(scales) - 1))
         results = []
+        handles = []
         opts = {}
         if case["outside"] is not None:
             opts["outside_value"] = float(case["outside"])
@@ -256,6 +257,7 @@ def check_case(ctx, case):
             pio3 = ds.open_dataset(d)
             levels = [ds.read_scale(pio3, s, dtype, C) for s in scales]
             results.append(levels)
+            handles.append((d, pio2, downscaler))
         if results[0] is None or results[1] is None:
             if (results[0] is None) != (results[1] is None):
                 ctx.fail("the computation fails or succeeds depending on the "
@@ -297,6 +299,40 @@ def check_case(ctx, case):
                              scales[i]["size"], scales[i + 1]["size"],
                              scales[i]["chunk_sizes"][0],
                              scales[i + 1]["chunk_sizes"][0]))
+        # ---- the full-resolution scale is replaced and the pyramid computed
+        # again through the SAME handle and downscaler (an updated volume)
+        if acc["type"] == "file" and case["seed"] % 3 == 1 and handles:
+            d, pio2, dscaler = handles[0]
+            vol2 = make_volume(dict(case, seed=case["seed"] + 7), info)
+            if vol2.tobytes() == vol.tobytes():
+                vol2 = vol2[:, ::-1].copy()
+            ds.write_scale(pio2, scales[0], vol2)
+            try:
+                with np.errstate(all="ignore"):
+                    dyadic_pyramid.compute_dyadic_scales(pio2, dscaler)
+            except Exception as exc:
+                ctx.fail("second pyramid computation through the same handle "
+                         "failed with %s: %s" % (type(exc).__name__, exc))
+            pio4 = ds.open_dataset(d)
+            lv = [ds.read_scale(pio4, s_, dtype, C) for s_ in scales]
+            if lv[0].tobytes() != vol2.tobytes():
+                ctx.fail("scale 0 does not hold the replaced volume")
+            for i in range(len(scales) - 1):
+                f = [1 if a == b else 2 for a, b in zip(scales[i]["size"],
+                                                        scales[i + 1]["size"])]
+                with np.errstate(all="ignore"):
+                    want = downscaler.downscale(lv[i], f)
+                if want.tobytes() != lv[i + 1].tobytes():
+                    bad = np.argwhere(want != lv[i + 1])
+                    ctx.fail("after scale 0 was replaced and the pyramid "
+                             "recomputed through the same handle, level %d "
+                             "differs from the whole level %d downscaled by "
+                             "%s (%s)%s; sizes %s->%s" % (
+                                 i + 1, i, f, case["method"],
+                                 " first at (c,z,y,x)=%s" % bad[0].tolist()
+                                 if len(bad) else "", scales[i]["size"],
+                                 scales[i + 1]["size"]))
+            ctx.count("recomputed_after_update")
         return {"error": False, "envelope": envelope}
     finally:
         ctx.rmtree(base)
